@@ -70,83 +70,107 @@ def asbuilt_demo(ctx, module, cfgs):
     ctx.cov.setdefault("asbuilt_mechanisms_refuted_by_tlc", []).extend(out)
 
 
-def xfer(ctx, exe):
-    cfg = "SockXfer_quick.cfg" if ctx.tier == "quick" else "SockXfer_thorough.cfg"
+def hifd_possible(ctx):
+    """The descriptor-threshold prelude needs > 1100 descriptors."""
+    import resource
+    soft, hard = resource.getrlimit(resource.RLIMIT_NOFILE)
+    if hard != resource.RLIM_INFINITY and hard < 1200:
+        ctx.notes.append("descriptor-threshold runs skipped: RLIMIT_NOFILE hard limit %d < 1200" % hard)
+        return False
+    return True
+
+
+def xfer(ctx, exe, cfg, tag, cyc=False, env=None, sample=None):
+    """One TLC run of SockXfer (free choice of the first k outcomes, or cyclic patterns over the whole transfer when cyc) and
+    the replay of every emitted behaviour.  sample=n: replay only n seeded-randomly chosen behaviours (used for the re-run of
+    the schedules under the descriptor-threshold prelude)."""
     beh = []
     res = run_tlc("MC_SockXfer.tla", cfg, ctx.rundir, on_edge=beh.append, timeout=1800, workers=4, heap="6g", coverage=False)
-    ctx.add("states", res.distinct)
-    ctx.add("transitions", res.generated)
-    ctx.cov.setdefault("tlc_runs", []).append({"module": "MC_SockXfer.tla", "cfg": cfg, "distinct_states": res.distinct,
-                                               "states_generated": res.generated, "depth": res.depth,
-                                               "behaviours_emitted": len(beh), "wall_s": round(res.wall, 1)})
+    if sample is None:
+        ctx.add("states", res.distinct)
+        ctx.add("transitions", res.generated)
+        ctx.cov.setdefault("tlc_runs", []).append({"module": "MC_SockXfer.tla", "cfg": cfg, "distinct_states": res.distinct,
+                                                   "states_generated": res.generated, "depth": res.depth,
+                                                   "behaviours_emitted": len(beh), "wall_s": round(res.wall, 1)})
     if not res.ok:
         ctx.report("spec:%s" % cfg, "TLC reports a violated property of the repaired transfer mechanism: %s" % (res.violation or "")[:600],
                    {"tlc": res.violation, "cfg": cfg})
     if not beh:
         raise Broken("no behaviour emitted by %s" % cfg)
+    wk, rk = ("wp", "rp") if cyc else ("w", "r")
     # vacuity: every outcome kind must occur in some schedule
-    kinds_w = {k for b in beh for k, n in b["w"]}
-    kinds_r = {k for b in beh for k, n in b["r"]}
-    if not {"ok", "sh", "ei", "ea"} <= kinds_w or not {"ok", "sh", "ei", "end"} <= kinds_r:
+    kinds_w = {k for b in beh for k, n in b[wk]}
+    kinds_r = {k for b in beh for k, n in b[rk]}
+    if not {"ok", "sh", "ei", "ea"} <= kinds_w or not {"ok", "sh", "ei"} <= kinds_r or (not cyc and "end" not in kinds_r):
         raise Broken("vacuity: outcome kinds missing from the emitted schedules: w=%s r=%s" % (kinds_w, kinds_r))
+    if cyc and max(b["retries"] for b in beh) < 150:
+        raise Broken("vacuity: no long transfer with more than 150 interrupted writes was generated")
+    if cyc and max(b["rcalls"] for b in beh) < 300:
+        raise Broken("vacuity: no long transfer with more than 300 read calls was generated")
     seen = set()
     texts, meta = [], []
     for b in beh:
-        key = (b["len"], b["mode"], tok(b["w"]), tok(b["r"]))
+        key = (b["len"], b["mode"], tok(b[wk]), tok(b[rk]))
         if key in seen:
             continue
         seen.add(key)
-        sid = len(texts) + 1
-        st = {"data": True, "len": b["rlen"], "open": 0, "send": b["send"]}
-        ret = {"rc": len(b["r"]), "rcalls": b["rcalls"], "retries": b["retries"], "wc": len(b["w"]), "wcalls": b["wcalls"]}
-        texts.append("S %d\nxfer %d %s %s %s = %s %s\nE\n" % (sid, b["len"], b["mode"], tok(b["w"]), tok(b["r"]), tok(ret), tok(st)))
         meta.append(b)
     rnd = random.Random(ctx.seed)
+    if sample is not None and len(meta) > sample:
+        meta = rnd.sample(meta, sample)
+    for b in meta:
+        sid = len(texts) + 1
+        st = {"data": True, "len": b["rlen"], "open": 0, "send": b["send"]}
+        ret = {"rc": b["rcalls"] if cyc else len(b["r"]), "rcalls": b["rcalls"], "retries": b["retries"],
+               "wc": b["wcalls"] if cyc else len(b["w"]), "wcalls": b["wcalls"]}
+        texts.append("S %d\nxfer %d %s %s %s%s = %s %s\nE\n" % (sid, b["len"], b["mode"], tok(b[wk]), tok(b[rk]), " cyc" if cyc else "",
+                                                             tok(ret), tok(st)))
     order = list(range(len(texts)))
     rnd.shuffle(order)                      # mix cheap and expensive schedules over the worker processes
     # batches, so that a tree on which (nearly) every transfer dies is reported within the time budget
     fails, ns, nt, hard = [], 0, 0, 0
     BATCH, HARD_LIMIT = 1500, 80
+    renv = {"VH_WATCHDOG": "30" if cyc else "10"}
+    renv.update(env or {})
     for c0 in range(0, len(order), BATCH):
-        f_, _, ns_, nt_ = run_scripts(exe, [], [texts[i] for i in order[c0:c0 + BATCH]], ctx.rundir, jobs=4, tag="xfer%d" % c0,
-                                      env={"VH_WATCHDOG": "10"})
+        f_, _, ns_, nt_ = run_scripts(exe, [], [texts[i] for i in order[c0:c0 + BATCH]], ctx.rundir, jobs=4, tag="%s%d" % (tag, c0), env=renv)
         fails += f_
         ns += ns_
         nt += nt_
         hard += sum(1 for f in f_ if f.kind in ("crash", "hang", "exit"))
         if hard >= HARD_LIMIT and c0 + BATCH < len(order):
-            ctx.notes.append("transfer replay stopped after %d of %d schedules: %d of them killed or hung the process" % (ns, len(order), hard))
+            ctx.notes.append("%s replay stopped after %d of %d schedules: %d of them killed or hung the process" % (tag, ns, len(order), hard))
             break
     ctx.add("evaluations", nt)
     ctx.add("schedules_replayed", ns)
-    nontrivial = sum(1 for b in meta if any(k != "ok" for k, n in b["w"]) or any(k not in ("ok", "end") for k, n in b["r"]))
+    nontrivial = sum(1 for b in meta if any(k != "ok" for k, n in b[wk]) or any(k not in ("ok", "end") for k, n in b[rk]))
     ctx.add("distinct_nontrivial", nontrivial)
     failed_sids = set()
     keys_seen, unlisted = set(), 0
     for f in sorted(fails, key=lambda f: (f.kind not in ("ret", "crash", "hang"), f.sid)):
         b = meta[f.sid - 1]
         failed_sids.add(f.sid)
-        if f.kind == "state":
-            d = fields_diff(f.exp, f.got)
-        elif f.kind == "ret":
+        if f.kind in ("state", "ret"):
             d = fields_diff(f.exp, f.got)
         elif f.kind == "inv":
             d = re.sub(r"\d+", "N", f.got)
         else:
             d = f.sig
-        key = ("xfer %s/%s" % (f.kind, d)) if f.kind in ("crash", "hang", "exit") else "xfer [%s] %s/%s" % (sched_class(b), f.kind, d)
+        cls = sched_class(dict(b, w=b[wk], r=b[rk])) + (",cyclic" if cyc else "")
+        key = ("%s %s/%s" % (tag, f.kind, d)) if f.kind in ("crash", "hang", "exit") else "%s [%s] %s/%s" % (tag, cls, f.kind, d)
         if key not in keys_seen and len(keys_seen) >= 40:
             unlisted += 1                   # enough distinct classes listed; the rest is counted
             continue
         keys_seen.add(key)
-        ctx.report(key, "transfer of %d bytes, mode %s, write schedule %s, read schedule %s: %s exp=%s got=%s %s" % (
-            b["len"], b["mode"], tok(b["w"]), tok(b["r"]), f.kind, f.exp, f.got, f.sig),
-            {"harness_args": [], "script_text": texts[f.sid - 1], "failure": repr(f), "detail": f.detail})
+        ctx.report(key, "transfer of %d bytes, mode %s, write %s %s, read %s %s: %s exp=%s got=%s %s" % (
+            b["len"], b["mode"], "pattern" if cyc else "schedule", tok(b[wk]), "pattern" if cyc else "schedule", tok(b[rk]),
+            f.kind, f.exp, f.got, f.sig),
+            {"harness_args": [], "script_text": texts[f.sid - 1], "failure": repr(f), "detail": f.detail, "env": renv})
     if unlisted:
-        ctx.notes.append("%d further failing transfer observations in classes beyond the 40 listed" % unlisted)
-    ctx.cov["xfer"] = {"schedules": len(texts), "nontrivial": nontrivial, "failed": len(failed_sids)}
-    for b in rnd.sample(meta, min(3, len(meta))):
-        ctx.sample({"len": b["len"], "mode": b["mode"], "write_schedule": b["w"], "read_schedule": b["r"],
+        ctx.notes.append("%d further failing %s observations in classes beyond the 40 listed" % (unlisted, tag))
+    ctx.cov[tag] = {"schedules": len(texts), "nontrivial": nontrivial, "failed": len(failed_sids)}
+    for b in rnd.sample(meta, min(2, len(meta))):
+        ctx.sample({"family": tag, "len": b["len"], "mode": b["mode"], "write": b[wk], "read": b[rk],
                     "predicted": {"wcalls": b["wcalls"], "rcalls": b["rcalls"], "retries": b["retries"], "received": b["rlen"]}})
 
 
@@ -203,6 +227,14 @@ def life(ctx, exe):
     lp = objcheck.replay_cover(ctx, g, [init[0]], exe, "life", [], life_keyfn, walks=walks, jobs=4, env={"VH_WATCHDOG": "10"})
     rep = ctx.cov["replay"]["life"]
     ctx.add("distinct_nontrivial", rep["scripts"])      # every lifecycle script opens/closes at least one object or is refused
+    # resource threshold: the same transitions with the process holding > 1000 descriptors, so that what the library opens
+    # lands at FD_SETSIZE (1024) or above; k = number of slots left free below 1024 (they are taken first)
+    if hifd_possible(ctx):
+        for k in ([3] if ctx.tier == "quick" else [3, 0, 1]):
+            v = "life-hifd%d" % k
+            objcheck.replay_cover(ctx, g, [init[0]], exe, v, [], life_keyfn, walks=(100, 40) if ctx.tier == "quick" else (500, 60),
+                                  jobs=4, env={"VH_WATCHDOG": "20", "VH_HIFD": str(k)}, max_levels=9 if ctx.tier == "quick" else 200)
+            ctx.add("distinct_nontrivial", ctx.cov["replay"][v]["scripts"])
     return g
 
 
@@ -210,7 +242,12 @@ def run(ctx):
     exe = harness(ctx)
     asbuilt_demo(ctx, "MC_SockXfer.tla", ASBUILT_XFER)
     asbuilt_demo(ctx, "MC_SockLife.tla", [("SockLife_asbuilt.cfg", "NoOrphanDescriptor")])
-    xfer(ctx, exe)
+    q = ctx.tier == "quick"
+    xfer(ctx, exe, "SockXfer_quick.cfg" if q else "SockXfer_thorough.cfg", "xfer")
+    xfer(ctx, exe, "SockXfer_long_quick.cfg" if q else "SockXfer_long_thorough.cfg", "xfer-long", cyc=True)
+    if hifd_possible(ctx):
+        xfer(ctx, exe, "SockXfer_quick.cfg", "xfer-hifd3", env={"VH_HIFD": "3"}, sample=400 if q else 4000)
+        xfer(ctx, exe, "SockXfer_quick.cfg", "xfer-hifd0", env={"VH_HIFD": "0"}, sample=200 if q else 2000)
     life(ctx, exe)
     ctx.cov["exhaustive"] = True
     ctx.cov["rule"] = ("transfer: every schedule TLC generates (all outcome sequences over the first k write and read calls x 8 payload "
@@ -223,4 +260,11 @@ def run(ctx):
 
 
 def replay(ctx, path):
-    return objcheck.replay_file(harness(ctx), [], path, ctx.rundir, env={"VH_WATCHDOG": "10"})
+    d = json.load(open(path))
+    rp = d.get("replay") or {}
+    env = {"VH_WATCHDOG": "30"}
+    env.update(rp.get("env") or {})
+    m = re.match(r"life-hifd(\d+)$", str(rp.get("variant", "")))
+    if m:
+        env["VH_HIFD"] = m.group(1)
+    return objcheck.replay_file(harness(ctx), [], path, ctx.rundir, env=env)
